@@ -476,6 +476,19 @@ func c04ops(t *tree.Tree, st *c04state) []c04op {
 		}
 	}
 	add("rerootfirst", true, false, same(func() error { return t.RerootFirst() }))
+	// outgroup rooting (single tips and pairs), with and without removal of the outgroup: the operation re-indexes itself
+	if n >= 4 {
+		for i, a := range st.names {
+			a := a
+			add("outgroup:"+a, true, false, same(func() error { return t.RerootOutGroup(false, false, a) }))
+			add("outgroup-remove:"+a, true, false, same(func() error { return t.RerootOutGroup(true, false, a) }))
+			if i+1 < len(st.names) && n >= 5 {
+				b := st.names[i+1]
+				add("outgroup-remove:"+a+","+b, true, false, same(func() error { return t.RerootOutGroup(true, false, a, b) }))
+			}
+		}
+	}
+	add("resolvenamed", false, false, same(func() error { t.ResolveNamedInternalNodes(); return nil }))
 	if t.Rooted() {
 		add("unroot", true, false, same(func() error { t.UnRoot(); return nil }))
 	}
